@@ -629,8 +629,15 @@ impl Prop for C04 {
         }
         v
     }
+    fn builds(&self, _tier: Tier) -> Vec<&'static str> {
+        // `asan`: the fast build instrumented with AddressSanitizer (out-of-bounds reads that happen
+        // to return the right answer are invisible otherwise)
+        vec!["fast", "checked", "asan"]
+    }
     fn cases(&self, tier: Tier, build: &str) -> u32 {
         match (tier, build) {
+            (Tier::Quick, "asan") => 9_600,
+            (Tier::Thorough, "asan") => 120_000,
             (Tier::Quick, "fast") => 48_000,
             (Tier::Quick, _) => 24_000,
             (Tier::Thorough, "fast") => 400_000,
